@@ -7,6 +7,7 @@ import (
 	"runtime"
 	"sync"
 	"sync/atomic"
+	"time"
 
 	"github.com/samaritan-proxy/samaritan/proc/redis/hotkey"
 
@@ -23,20 +24,21 @@ func init() { cli.Register("c19-latchrace", latchRace) }
 //
 // (spec/redis/HotKeyLatch.tla, invariant Conservation).
 type latchRound struct {
-	Round     int               `json:"round"`
-	Attempt   int               `json:"attempt"`
-	Writers   int               `json:"writers"`
-	Keys      int               `json:"keys"`
-	Capacity  int               `json:"capacity"`
-	Accesses  map[string]uint64 `json:"accesses"`  // per key, counted by the writers themselves
-	Latched   map[string]uint64 `json:"latched"`   // per key, sum over all latches
-	Remaining map[string]uint64 `json:"remaining"` // per key, snapshot after the writers stopped
-	Latches   int               `json:"latches"`   // latches while at least one writer was running
-	NonEmpty  int               `json:"nonempty"`  // ... that returned something
-	Total     uint64            `json:"total"`
-	Lost      int64             `json:"lost"` // total accesses - latched - remaining (0 when exact)
-	MaxSize   int               `json:"maxsize"`
-	Integrity []string          `json:"integrity,omitempty"`
+	Round           int               `json:"round"`
+	Attempt         int               `json:"attempt"`
+	BudgetExhausted bool              `json:"budget_exhausted,omitempty"`
+	Writers         int               `json:"writers"`
+	Keys            int               `json:"keys"`
+	Capacity        int               `json:"capacity"`
+	Accesses        map[string]uint64 `json:"accesses"`  // per key, counted by the writers themselves
+	Latched         map[string]uint64 `json:"latched"`   // per key, sum over all latches
+	Remaining       map[string]uint64 `json:"remaining"` // per key, snapshot after the writers stopped
+	Latches         int               `json:"latches"`   // latches while at least one writer was running
+	NonEmpty        int               `json:"nonempty"`  // ... that returned something
+	Total           uint64            `json:"total"`
+	Lost            int64             `json:"lost"` // total accesses - latched - remaining (0 when exact)
+	MaxSize         int               `json:"maxsize"`
+	Integrity       []string          `json:"integrity,omitempty"`
 }
 
 func runLatchRound(id, writers, nkeys, perWriter int, seed int64) latchRound {
@@ -50,7 +52,9 @@ func runLatchRound(id, writers, nkeys, perWriter int, seed int64) latchRound {
 	per := make([][]uint64, writers) // per writer, per key
 	var wg sync.WaitGroup
 	var running int32 = int32(writers)
-	var progress int64
+	var progress, latchCount int64
+	var waiting int32
+	const maxLead = 256
 	start := make(chan struct{})
 	for w := 0; w < writers; w++ {
 		per[w] = make([]uint64, nkeys)
@@ -60,12 +64,31 @@ func runLatchRound(id, writers, nkeys, perWriter int, seed int64) latchRound {
 			defer atomic.AddInt32(&running, -1)
 			r := rand.New(rand.NewSource(seed*131 + int64(w)))
 			<-start
+			seen := atomic.LoadInt64(&latchCount)
+			lead := 0
 			for i := 0; i < perWriter; i++ {
 				k := r.Intn(nkeys)
 				c.Incr(keys[k])
 				per[w][k]++
+				lead++
 				if i&31 == 31 {
 					atomic.AddInt64(&progress, 32)
+					if n := atomic.LoadInt64(&latchCount); n != seen {
+						seen, lead = n, 0
+					}
+				}
+				// a writer never runs more than maxLead accesses ahead of the latcher: when the latcher is
+				// starved the writer waits for the next latch (which then starts while the other writers
+				// and, right after it, this one are running), so that the number of latches that fall
+				// between accesses does not depend on the scheduler's mood
+				if lead >= maxLead {
+					atomic.AddInt64(&progress, 1)
+					atomic.AddInt32(&waiting, 1)
+					for atomic.LoadInt64(&latchCount) == seen {
+						runtime.Gosched()
+					}
+					atomic.AddInt32(&waiting, -1)
+					seen, lead = atomic.LoadInt64(&latchCount), 0
 				}
 			}
 		}(w)
@@ -75,10 +98,12 @@ func runLatchRound(id, writers, nkeys, perWriter int, seed int64) latchRound {
 	for atomic.LoadInt32(&running) > 0 {
 		// the collector latches every now and then, not in a busy loop: wait until the writers have
 		// made some accesses since the previous latch (they keep going while the latch runs)
-		for atomic.LoadInt64(&progress) == last && atomic.LoadInt32(&running) > 0 {
+		for atomic.LoadInt64(&progress) == last && atomic.LoadInt32(&running) > 0 && atomic.LoadInt32(&waiting) == 0 {
 			runtime.Gosched()
 		}
 		last = atomic.LoadInt64(&progress)
+		// release the waiting writers first: the latch below runs while they resume
+		atomic.AddInt64(&latchCount, 1)
 		m := c.Latch()
 		res.Latches++
 		if len(m) > 0 {
@@ -90,6 +115,7 @@ func runLatchRound(id, writers, nkeys, perWriter int, seed int64) latchRound {
 		for k, v := range m {
 			res.Latched[k] += v
 		}
+		runtime.Gosched() // let the released writers run even when there is a single P
 	}
 	wg.Wait()
 	snap := hotkey.VerifSnapshot(c)
@@ -118,6 +144,8 @@ func latchRace(args []string) error {
 	rounds := fs.Int("rounds", 6, "rounds (1..4 writers in turn)")
 	per := fs.Int("per", 60000, "accesses per writer")
 	out := fs.String("out", "", "results (ndjson)")
+	budgetMs := fs.Int("budget-ms", 8000, "wall-clock budget for repeating rounds that did not interleave")
+	minLatches := fs.Int("min-latches", 30, "latches that returned counts while writers ran, per round")
 	if err := fs.Parse(args); err != nil {
 		return err
 	}
@@ -126,13 +154,19 @@ func latchRace(args []string) error {
 		return err
 	}
 	defer w.Close()
+	t0 := time.Now()
 	for i := 0; i < *rounds; i++ {
 		var r latchRound
-		for attempt := 0; attempt < 5; attempt++ {
-			// a round in which the latcher hardly ran (starved scheduler) is repeated
+		for attempt := 0; ; attempt++ {
+			// self-adjusting: a round in which too few latches fell between the writers' accesses (starved
+			// scheduler) is repeated until the criterion is met or the wall-clock budget is used up
 			r = runLatchRound(i, 1+i%4, 3+i%5, *per, cli.Seed()*1000+int64(i)+int64(attempt)*7)
 			r.Attempt = attempt
-			if r.NonEmpty >= 20 || r.Lost != 0 {
+			if r.NonEmpty >= *minLatches || r.Lost != 0 {
+				break
+			}
+			if time.Since(t0) > time.Duration(*budgetMs)*time.Millisecond {
+				r.BudgetExhausted = true
 				break
 			}
 		}
